@@ -2017,5 +2017,8 @@ class MergedResult(IteratorResult[Unpack[_Ts]]):
     def _soft_close(self, hard: bool = False, **kw: Any) -> None:
         for r in self._results:
             r._soft_close(hard=hard, **kw)
+        # also drop the chained iterator and set _hard_closed, so that
+        # fetches after close() raise ResourceClosedError
+        super()._soft_close(hard=hard, **kw)
         if hard:
             self.closed = True
